@@ -1,0 +1,53 @@
+//go:build verif
+
+package vestingsc
+
+import (
+	chainstate "0chain.net/chaincore/chain/state"
+	"github.com/0chain/common/core/util"
+)
+
+// Verification hook (build tag `verif` only): read-only snapshot of one vesting
+// pool decoded with the contract's own key scheme and types.  Add-only; not
+// compiled without the tag.
+
+// VerifDest is one destination entry of a pool, in pool order.
+type VerifDest struct {
+	ID     string
+	Amount uint64
+	Vested uint64
+	Last   int64
+	Move   int64
+}
+
+// VerifPool is the stored vesting pool.
+type VerifPool struct {
+	Exists   bool
+	ID       string
+	Balance  uint64
+	Start    int64
+	Expire   int64
+	ClientID string
+	Dests    []VerifDest
+}
+
+// VerifPoolID is the id of the pool created by the `add` transaction with the given hash.
+func VerifPoolID(txnHash string) string { return poolKey(ADDRESS, txnHash) }
+
+// VerifSnapshot reads the pool as it is stored.
+func VerifSnapshot(balances chainstate.CommonStateContextI, poolID string) (VerifPool, error) {
+	vp, err := getPool(poolID, balances)
+	if err == util.ErrValueNotPresent {
+		return VerifPool{ID: poolID}, nil
+	}
+	if err != nil {
+		return VerifPool{}, err
+	}
+	out := VerifPool{Exists: true, ID: vp.ID, Balance: uint64(vp.Balance), Start: int64(vp.StartTime),
+		Expire: int64(vp.ExpireAt), ClientID: vp.ClientID}
+	for _, d := range vp.Destinations {
+		out.Dests = append(out.Dests, VerifDest{ID: d.ID, Amount: uint64(d.Amount), Vested: uint64(d.Vested),
+			Last: int64(d.Last), Move: int64(d.Move)})
+	}
+	return out, nil
+}
